@@ -827,3 +827,104 @@ impl Suite for DirNest {
         Case { text, well_formed: false, label: format!("dirnest#{i}"), wrap_hint: None, meta: serde_json::json!({"grid": {"start": start, "end": end, "kind": kind, "wordkind": "delim"}}) }
     }
 }
+
+// ------------------------------------------------------------------ C03 / C11 / C12: several multi-line literals in one statement
+
+/// One statement holding two or three multi-line literals; container x suffix after each literal x how far each literal's
+/// interior (and closing quotes) is shifted away from where the formatter puts it (0 = already in place).
+/// The base text is a fixed point of the formatter at the default width; every variant differs from it only in the
+/// indentation inside literals, so all variants have the same formatted result as the base at every width.
+pub struct MlShapes {
+    pub max: u64,
+}
+
+const ML_CONTAINERS: [(&str, &str, &str, &str); 5] = [
+    ("Bar(", ", ", ", ", ");"),
+    ("X := ", " + ", " + ", ";"),
+    ("Bar(Baz(", "), ", ", ", ", 3);"),
+    ("Result := Format(", ", [", ", ", "]);"),
+    ("if Check(", ") and Other(", ") or Last(", ") then Exit;"),
+];
+const ML_SUFFIXES: [&str; 4] = ["", ".format(aaaaaaaa, b)", ".Trim", " + Foo(1, 2) + Another(3)"];
+const ML_SHIFTS: [i32; 5] = [0, 44, 3, -2, 90];
+
+impl MlShapes {
+    fn dims(i: u64) -> (usize, usize, Vec<usize>, Vec<usize>) {
+        // container, number of literals, suffix per literal, shift per literal
+        let mut k = i as usize;
+        let mut pick = |n: usize| { let r = k % n; k /= n; r };
+        let cont = pick(ML_CONTAINERS.len());
+        let n = 2 + pick(2);
+        let shifts: Vec<usize> = (0..n).map(|_| pick(ML_SHIFTS.len())).collect();
+        let sufs: Vec<usize> = (0..n).map(|_| pick(ML_SUFFIXES.len())).collect();
+        (cont, n, sufs, shifts)
+    }
+}
+
+impl Suite for MlShapes {
+    fn len(&self) -> u64 {
+        let full = (ML_CONTAINERS.len() * 2 * ML_SHIFTS.len().pow(3) * ML_SUFFIXES.len().pow(3)) as u64;
+        full.min(self.max)
+    }
+    fn get(&self, i: u64) -> Case {
+        // spread the index over the whole product when the suite is capped
+        let full = (ML_CONTAINERS.len() * 2 * ML_SHIFTS.len().pow(3) * ML_SUFFIXES.len().pow(3)) as u64;
+        let idx = if self.max < full { i.wrapping_mul(2654435761) % full } else { i };
+        let (cont, n, sufs, shifts) = MlShapes::dims(idx);
+        let c = ML_CONTAINERS[cont];
+        let skip = |why: &str| Case { text: String::new(), well_formed: false, label: format!("mlshapes#{i}:skip:{why}"), wrap_hint: None, meta: Value::Null };
+        let mut stmt = String::from(c.0);
+        for k in 0..n {
+            if k == 1 {
+                stmt.push_str(c.1);
+            } else if k == 2 {
+                stmt.push_str(c.2);
+            }
+            stmt.push_str(&format!("'''\n      line {k} of the literal\n        and a deeper one\n      '''"));
+            stmt.push_str(ML_SUFFIXES[sufs[k]]);
+        }
+        stmt.push_str(c.3);
+        let base_src = format!("procedure Foo;\nbegin\n  {stmt}\nend;\n");
+        let cfg = Cfg::default();
+        let Ok(base) = crate::obs::run(&base_src, &cfg, &[], false).out else { return skip("panic") };
+        match crate::obs::run(&base, &cfg, &[], false).out {
+            Ok(again) if again == base => {}
+            _ => return skip("base_not_a_fixed_point"),
+        }
+        // shift the interior and closing lines of each literal
+        let Ok(toks) = crate::obs::lex(&base) else { return skip("lex") };
+        let lits: Vec<&Tok> = toks.iter().filter(|t| t.kind == "TextLiteral(MultiLine)").collect();
+        if lits.len() != n {
+            return skip("literal_count");
+        }
+        let mut text = String::new();
+        let mut pos = 0usize;
+        for (k, t) in lits.iter().enumerate() {
+            let (s, e) = (t.content_start(), t.end());
+            text.push_str(&base[pos..s]);
+            let lit = &base[s..e];
+            let shift = ML_SHIFTS[shifts[k]];
+            let mut first = true;
+            for line in lit.split('\n') {
+                if first {
+                    text.push_str(line);
+                    first = false;
+                    continue;
+                }
+                text.push('\n');
+                if shift >= 0 {
+                    if !line.trim().is_empty() {
+                        text.push_str(&" ".repeat(shift as usize));
+                    }
+                    text.push_str(line);
+                } else {
+                    let cut = line.len() - line.trim_start_matches(' ').len();
+                    text.push_str(&line[cut.min((-shift) as usize)..]);
+                }
+            }
+            pos = e;
+        }
+        text.push_str(&base[pos..]);
+        Case { text, well_formed: true, label: format!("mlshapes#{i}:c{cont}:n{n}:shifts{:?}:sufs{:?}", shifts.iter().map(|s| ML_SHIFTS[*s]).collect::<Vec<_>>(), sufs), wrap_hint: None, meta: Value::Null }
+    }
+}
